@@ -28,12 +28,14 @@ func checkC13(c *Ctx) {
 		"L1/L2: every access to the guarded fields of Queue, Deque, WaitGroup, Collector, Synchronized, Set and of the limit/ttl closures holds the owning mutex on every path, directly or through lock-required helpers whose every call site holds it",
 		"L3: closures and method values that need the mutex leave the API only wrapped in WithLock(<that mutex>)",
 		"U3: every Lock/WithLock wrapper of the function types invokes the wrapped function with the mutex held",
-		"L5: write-once fields are written only during construction or inside their sync.Once body")
+		"L5: write-once fields are written only during construction or inside their sync.Once body",
+		"L6: locals shared between goroutines (the broker's subscriber set, collectors, wait groups) are of concurrency-safe types")
 	c.R.NotCov = append(c.R.NotCov, "races inside user callbacks", "sync.Map / atomic.Value internals (trusted)", "two variables aliasing one guarded object")
 	lockRules(c, allOwners(), map[string]int{"L1": 60, "L2": 14, "L3": 2})
 	ruleU3(c)
 	ruleL3d(c)
 	ruleL5(c)
+	ruleL6(c, allPkgs, 15)
 }
 
 // ruleU3: X.WithLock(m) returns a closure whose every invocation of X happens
@@ -213,7 +215,8 @@ func checkC04(c *Ctx) {
 	c.R.Clauses = append(c.R.Clauses,
 		"B1: no goroutine of the pipeline packages can block on a channel without a ctx.Done()/default way out", "B2: nothing blocks while holding a mutex",
 		"P1b: lazily started background work runs under the iterator's cancellable context", "P2: every pipe fed by a finite input is eventually closed (the consumer reaches io.EOF)",
-		"P3: closing a derived iterator closes its upstream", "T1: Close is idempotent and only cancels (doClose under sync.Once)")
+		"P3: closing a derived iterator closes its upstream", "T1: Close is idempotent and only cancels (doClose under sync.Once)",
+		"W1-W8/L4 for fun.WaitGroup: the Wait that gates every pipe's close cannot miss the last Done (check and park in one critical section, Add broadcasts at zero)")
 	c.R.NotCov = append(c.R.NotCov, "that user functions return", "'promptly' as a time bound", "goroutines parked in sync.Once.Do behind Buffer's Once().Go() (they unwind when the pump ends)")
 	ruleB1(c, pipePkgs, 20)
 	ruleB2(c, pipePkgs, 2)
@@ -221,12 +224,18 @@ func checkC04(c *Ctx) {
 	ruleP2(c, pipePkgs, 15)
 	ruleP3(c)
 	ruleT1(c)
+	// the pipes are closed by wg.Operation().PostHook(close): a WaitGroup.Wait that can miss the last Done
+	// leaves the output open for ever
+	wgOwner := map[string]bool{"fun.WaitGroup": true}
+	condRules(c, wgOwner, map[string]int{"W1": 1, "W2": 1, "W2b": 1, "W3": 1, "W4": 2, "W6": 1, "W8": 1})
+	ruleL4(c, wgOwner, 3)
 }
 
 func checkC05(c *Ctx) {
 	c.R.Clauses = append(c.R.Clauses,
 		"L1/L2: every access to Queue state is under q.mu", "L4: every Queue operation (and the iterator closure) is a single critical section", "D3b: a push links only after the closed test and a successful tracker.add; a removal is paired with tracker.remove",
-		"X2: the three trackers account alike (+1 exactly on nil, -1 at most once)", "X6: Len is the tracker's length", "D5: link nil discipline")
+		"X2: the three trackers account alike (+1 exactly on nil, -1 at most once)", "X6: Len is the tracker's length", "D5: link nil discipline",
+		"W9: a consumer-side wait reports closed only from inside its wait loop (queued items stay removable after Close)", "D9v: the ok flag of an internal (value, ok) result is never dropped while the value is used")
 	c.R.NotCov = append(c.R.NotCov, "linearizability over all histories (FIFO/real-time order)", "the credit arithmetic", "Len <= limit as a number")
 	lockRules(c, queueOwner, map[string]int{"L1": 8, "L2": 4})
 	ruleL4(c, queueOwner, 8)
@@ -234,12 +243,15 @@ func checkC05(c *Ctx) {
 	ruleX2(c)
 	ruleX6(c, "Queue")
 	ruleD5(c, 2)
+	ruleW9(c, queueOwner, 2)
+	ruleD9v(c, map[string]bool{"pubsub": true}, 3)
 }
 
 func checkC06(c *Ctx) {
 	c.R.Clauses = append(c.R.Clauses,
 		"L1/L2/L3: every access to Deque state is under dq.mtx; iterator closures leave only wrapped in WithLock", "L4: single critical section per operation",
-		"D3/D3b: links change in balanced pairs together with the tracker, after the closed test and the successful add", "D7: force push evicts exactly one item from the opposite end and only when full", "X2, X6")
+		"D3/D3b: links change in balanced pairs together with the tracker, after the closed test and the successful add", "D7: force push evicts exactly one item from the opposite end and only when full", "X2, X6",
+		"W9/D9v: closed is reported only when there is nothing to take; a pop's ok flag is never dropped while its value is returned", "X7: a fixed Capacity is served by a tracker whose bound never changes")
 	c.R.NotCov = append(c.R.NotCov, "linearizability over all histories", "'context error ⇒ no effect' on waitPop (path-sensitive)")
 	lockRules(c, dequeOwner, map[string]int{"L1": 12, "L2": 6, "L3": 2})
 	ruleL4(c, dequeOwner, 10)
@@ -248,6 +260,9 @@ func checkC06(c *Ctx) {
 	ruleForcePush(c)
 	ruleX2(c)
 	ruleX6(c, "Deque")
+	ruleW9(c, dequeOwner, 1)
+	ruleD9v(c, map[string]bool{"pubsub": true}, 3)
+	ruleX7(c)
 }
 
 func checkC07(c *Ctx) {
@@ -266,9 +281,12 @@ func checkC07(c *Ctx) {
 func checkC08(c *Ctx) {
 	c.R.Clauses = append(c.R.Clauses,
 		"K1: single writer of the subscriber set (the event-loop goroutine)", "K2: a dispatch worker never overlaps two messages and forwards exactly the received message",
-		"G1: the parallel dispatch branch waits for its counted senders", "B1: every subscriber send can give up on ctx.Done()")
+		"G1: the parallel dispatch branch counts each sender before it starts and waits for them (so one worker never overlaps two messages)", "B1: every subscriber send can give up on ctx.Done()",
+		"K4: the broker never receives from a subscriber's channel", "D9v: the distributor's Receive side never hands out a value whose ok flag was dropped")
 	c.R.NotCov = append(c.R.NotCov, "exactly-once / ordering over subscribe-unsubscribe timing", "FIFO of the distributor", "duplicates across several workers")
 	ruleBroker(c)
+	ruleBroker2(c)
+	ruleD9v(c, map[string]bool{"pubsub": true}, 3)
 	ruleG1(c, map[string]bool{"pubsub": true}, 3)
 	ruleB1(c, map[string]bool{"pubsub": true}, 30)
 }
@@ -276,12 +294,13 @@ func checkC08(c *Ctx) {
 func checkC09(c *Ctx) {
 	c.R.Clauses = append(c.R.Clauses,
 		"B1: every broker/queue/deque channel operation can exit on its context", "B2: Broker.Wait does not hold the mutex Stop needs", "G1: event loop and workers are counted in b.wg, Wait waits on it",
-		"W3/W7 on the Deque distributor: the dispatcher cannot park while the buffer is non-empty, and is woken by every push/close", "K3: Stop reaches the cancel function")
+		"W3/W7 on the Deque distributor: the dispatcher cannot park while the buffer is non-empty, and is woken by every push/close", "K3: Stop reaches the cancel function", "K5: the event loop closes the broker only on ErrQueueClosed/io.EOF from the distributor")
 	c.R.NotCov = append(c.R.NotCov, "eventual dispatch as a liveness property over schedules", "LIFO / load-shedding semantics")
 	ruleB1(c, map[string]bool{"pubsub": true}, 30)
 	ruleB2(c, map[string]bool{"pubsub": true}, 2)
 	ruleG1(c, map[string]bool{"pubsub": true}, 3)
 	ruleBroker(c)
+	ruleBroker2(c)
 	condRules(c, pubsubOwners, map[string]int{"W1": 5, "W2": 5, "W2b": 5, "W3": 20, "W4": 20, "W6": 20, "W7": 2})
 }
 
@@ -406,5 +425,10 @@ func init() {
 		ruleForcePush(c)
 		ruleBroker(c)
 		ruleSrv(c)
+		ruleL6(c, allPkgs, 0)
+		ruleD9v(c, allPkgs, 0)
+		ruleW9(c, pubsubOwners, 0)
+		ruleX7(c)
+		ruleBroker2(c)
 	}
 }
